@@ -130,6 +130,8 @@ pub struct ConnCfg {
     pub combined: bool,
     /// bytes the endpoint may write before the peer "stops reading" (None = unlimited)
     pub initial_write_budget: Option<usize>,
+    /// v5 client role: Topic Alias Maximum the library's CONNECT advertises (None = property absent)
+    pub client_topic_alias_max: Option<u16>,
 }
 
 impl ConnCfg {
@@ -163,6 +165,7 @@ impl ConnCfg {
             inflight_middleware: true,
             combined: false,
             initial_write_budget: None,
+            client_topic_alias_max: None,
         }
     }
 
@@ -590,6 +593,8 @@ fn packet_id_of_v3_sub(_s: &v3::control::Subscribe) -> u16 {
 // ------------------------------------------------------------------------------- v5 handlers
 
 async fn v5_publish(app: Rc<App>, p: v5::Publish, route: String) -> Result<v5::PublishAck, TestErr> {
+    // resources with a dynamic segment: record what the router's match says about this message
+    let route = if route.contains('{') { format!("{route}[id={}]", p.topic().get("id").unwrap_or("-")) } else { route };
     let pk = p.packet().clone();
     let size = p.packet_size();
     let props = crate::map::v5_publish_props(&pk.properties);
@@ -790,33 +795,27 @@ async fn build_v3_server(cfg: &ConnCfg, queue: AppQueue, scfg: SharedCfg) -> Con
     }
 }
 
-fn v3_publish_factory(
-    cfg: &ConnCfg,
-) -> impl ServiceFactory<v3::Publish, v3::Session<Rc<App>>, Response = (), Error = TestErr, InitError = TestErr> + 'static {
+fn v3_publish_factory(cfg: &ConnCfg) -> ntex_service::boxed::BoxServiceFactory<v3::Session<Rc<App>>, v3::Publish, (), TestErr, TestErr> {
     let routes = cfg.router.clone();
-    fn_factory_with_config(move |session: v3::Session<Rc<App>>| {
-        let routes = routes.clone();
-        async move {
-            let app = (*session).clone();
-            let mut router = ntex_router::Router::<usize>::build();
-            for (i, r) in routes.iter().enumerate() {
-                router.path(r.as_str(), i);
+    let handler = |route: String| {
+        fn_factory_with_config(move |session: v3::Session<Rc<App>>| {
+            let route = route.clone();
+            async move {
+                let app = (*session).clone();
+                Ok::<_, TestErr>(fn_service(move |p: v3::Publish| v3_publish(app.clone(), p, route.clone())))
             }
-            let router = Rc::new(router.finish());
-            let routes = Rc::new(routes);
-            Ok::<_, TestErr>(fn_service(move |mut p: v3::Publish| {
-                let route = if routes.is_empty() {
-                    String::new()
-                } else {
-                    match router.recognize(p.topic_mut()) {
-                        Some((i, _)) => routes[*i].clone(),
-                        None => "<default>".to_string(),
-                    }
-                };
-                v3_publish(app.clone(), p, route)
-            }))
+        })
+    };
+    if routes.is_empty() {
+        ntex_service::boxed::factory(handler(String::new()))
+    } else {
+        // the library's own topic router (src/v3/router.rs)
+        let mut router = v3::Router::<Rc<App>, TestErr>::new(handler("<default>".to_string()));
+        for r in &routes {
+            router = router.resource(r.as_str(), handler(r.clone()));
         }
-    })
+        ntex_service::boxed::factory(ntex_service::IntoServiceFactory::into_factory(router))
+    }
 }
 
 macro_rules! v5_server {
@@ -905,31 +904,27 @@ async fn build_v5_server(cfg: &ConnCfg, queue: AppQueue, scfg: SharedCfg) -> Con
 
 fn v5_publish_factory(
     cfg: &ConnCfg,
-) -> impl ServiceFactory<v5::Publish, v5::Session<Rc<App>>, Response = v5::PublishAck, Error = TestErr, InitError = TestErr> + 'static {
+) -> ntex_service::boxed::BoxServiceFactory<v5::Session<Rc<App>>, v5::Publish, v5::PublishAck, TestErr, TestErr> {
     let routes = cfg.router.clone();
-    fn_factory_with_config(move |session: v5::Session<Rc<App>>| {
-        let routes = routes.clone();
-        async move {
-            let app = (*session).clone();
-            let mut router = ntex_router::Router::<usize>::build();
-            for (i, r) in routes.iter().enumerate() {
-                router.path(r.as_str(), i);
+    let handler = |route: String| {
+        fn_factory_with_config(move |session: v5::Session<Rc<App>>| {
+            let route = route.clone();
+            async move {
+                let app = (*session).clone();
+                Ok::<_, TestErr>(fn_service(move |p: v5::Publish| v5_publish(app.clone(), p, route.clone())))
             }
-            let router = Rc::new(router.finish());
-            let routes = Rc::new(routes);
-            Ok::<_, TestErr>(fn_service(move |mut p: v5::Publish| {
-                let route = if routes.is_empty() {
-                    String::new()
-                } else {
-                    match router.recognize(p.topic_mut()) {
-                        Some((i, _)) => routes[*i].clone(),
-                        None => "<default>".to_string(),
-                    }
-                };
-                v5_publish(app.clone(), p, route)
-            }))
+        })
+    };
+    if routes.is_empty() {
+        ntex_service::boxed::factory(handler(String::new()))
+    } else {
+        // the library's own topic router (src/v5/router.rs)
+        let mut router = v5::Router::<Rc<App>, TestErr>::new(handler("<default>".to_string()));
+        for r in &routes {
+            router = router.resource(r.as_str(), handler(r.clone()));
         }
-    })
+        ntex_service::boxed::factory(router.build())
+    }
 }
 
 async fn build_combined_server(cfg: &ConnCfg, queue: AppQueue, scfg: SharedCfg) -> ConnectFn {
@@ -1032,6 +1027,9 @@ pub async fn start_client_opts(cfg: &ConnCfg, app: Rc<App>, send_connack: bool) 
                 c = c.max_receive(cfg2.max_receive);
                 if let Some(m) = cfg2.hs.max_packet_size {
                     c = c.max_packet_size(m);
+                }
+                if let Some(m) = cfg2.client_topic_alias_max {
+                    c = c.packet(|p| p.topic_alias_max = m);
                 }
                 match pl.call(c).await {
                     Ok(client) => {
